@@ -1046,6 +1046,51 @@ def rule_emptycohorts(ctx) -> RuleResult:
 
 
 # ---------------------------------------------------------------------------------------------
+# R-AXISORDER (C08, C02, C19): the user's axis tuple is put in ascending order before the stages that address it by position.
+# The combine stages and the cohorts layer use `axis[:-1]`, `axis[-1]`, `axis[0]` ("the last entry is the last reduced axis; the others come
+# before the dummy axis").  With `axis=None` groupby_reduce builds the tuple ascending; the explicit branch takes the user's order from
+# normalize_axis_tuple.  Sibling agreement: both branches must hand out an ascending tuple, i.e. the explicit one passes through
+# sorted / np.sort / np.unique (an axis tuple is a set of axes for every NumPy reduction).
+def rule_axisorder(ctx) -> RuleResult:
+    res = RuleResult("R-AXISORDER", "an explicit axis tuple is sorted before stages that address the reduced axes by position", min_instances=2)
+    from .codes import _local_closure
+    prog = ctx.prog
+    positional = []
+    for q, f in sorted(prog.funcs.items()):
+        if isinstance(f.node, ast.Lambda) or not q.startswith("core."):
+            continue
+        for s_ in walk_own(f.node):
+            if isinstance(s_, ast.Subscript) and isinstance(s_.value, ast.Name) and s_.value.id in ("axis", "axis_") and s_.value.id in f.params + ["axis_"] \
+                    and (isinstance(s_.slice, ast.Slice) or isinstance(s_.slice, (ast.Constant, ast.UnaryOp))):
+                positional.append((q, f, s_))
+    for q, f, s_ in positional:
+        res.inst(f"{q}: positional use {norm(s_)}", f"pos|{q}|{norm(s_)}")
+    if not positional:
+        res.notes.append("no stage addresses the axis tuple by position: rule not applicable")
+        res.min_instances = 0
+        return res
+    for q in ("core.groupby_reduce",):
+        f = prog.func(q)
+        srcs = [a for a in walk_own(f.node) if isinstance(a, ast.Assign) and len(a.targets) == 1 and isinstance(a.targets[0], ast.Name)
+                and any(isinstance(c, ast.Call) and norm(c.func).endswith("normalize_axis_tuple") for c in ast.walk(a.value))]
+        if not srcs:
+            raise AnalysisError(f"{q}: the explicit axis is no longer normalised with normalize_axis_tuple (anchor)")
+        for a in srcs:
+            var = a.targets[0].id
+            # later re-bindings of the same variable from itself count (axis_ = tuple(sorted(axis_)))
+            chain = [a.value] + [b.value for b in walk_own(f.node) if isinstance(b, ast.Assign) and len(b.targets) == 1 and norm(b.targets[0]) == var
+                                 and b is not a and var in names_in(b.value) and b.lineno > a.lineno and b.lineno < a.lineno + 8]
+            ordered = any(isinstance(c, ast.Call) and norm(c.func) in ("sorted", "np.sort", "numpy.sort", "np.unique", "numpy.unique") for v in chain for c in ast.walk(v))
+            res.inst(f"{q}: '{var} = {norm(a.value)[:60]}': put in ascending order: {ordered}", f"src|{q}|{var}")
+            if not ordered:
+                res.report(f"{q}|axis-tuple-unsorted", f.where(a), q,
+                           f"'{var} = {norm(a.value)[:60]}' keeps the user's order, but {len(positional)} stage(s) address the tuple by position "
+                           f"(e.g. {positional[0][0]}: '{norm(positional[0][2])}'): axis=(1, 0) on a dask array fails inside the combine with \"duplicate value in 'axis'\" "
+                           "(or 'adjust_chunks' for cohorts) although the eager call and axis=(0, 1) work")
+    return res
+
+
+# ---------------------------------------------------------------------------------------------
 # R-BLOCKBCAST (C07, C19): a blockwise plan on a dask array sees labels of the array's full trailing shape.
 # _unify_chunks keeps a size-1 dimension of numpy labels as ONE chunk of size 1 (the kernels broadcast it block by block), which is fine for the
 # tree plans.  The blockwise plan lists the labels of every *block* eagerly, and rechunk_for_blockwise indexes the labels by array position:
